@@ -76,7 +76,10 @@ var c08OCIs = func() []*oci.Spec {
 // reported / affected another file.
 func (e *c08Env) exercise(data []byte, ext string, extraOCI ...*oci.Spec) (msg string, info map[string]bool) {
 	info = map[string]bool{}
-	cdi.SetSpecValidator(nil)
+	// (under the watchdog as well: if an earlier input left the validator lock held, this is where it shows)
+	if m := withWatchdog("cdi.SetSpecValidator(nil) after the previous input", func() { cdi.SetSpecValidator(nil) }); m != "" {
+		return m, info
+	}
 	schema.Set(schema.BuiltinSchema())
 	e.seq++
 	dir := filepath.Join(e.dir, fmt.Sprintf("x%d", e.seq%32))
@@ -333,7 +336,7 @@ func genC08Doc(t *rapid.T) (data []byte, ext string, kind string) {
 func TestC08Rapid(t *testing.T) {
 	rec := stats.For("C08", "rapid")
 	env := newC08Env(t)
-	defer cdi.SetSpecValidator(nil)
+	defer func() { go cdi.SetSpecValidator(nil) }() // never wait for it: a leaked lock must not wedge the test's exit
 	rapid.Check(t, func(t *rapid.T) {
 		data, ext, kind := genC08Doc(t)
 		if len(data) > 64*1024 {
@@ -455,7 +458,7 @@ func TestC08Watcher(t *testing.T) {
 func TestC08Regress(t *testing.T) {
 	rec := stats.For("C08", "regress")
 	env := newC08Env(t)
-	defer cdi.SetSpecValidator(nil)
+	defer func() { go cdi.SetSpecValidator(nil) }()
 	for _, rc := range loadRegressions(t, "C08") {
 		var c struct {
 			Ext     string   `json:"ext"`
